@@ -503,7 +503,20 @@ func (g *gen) scenario() int {
 		g.buildFull()
 	}
 	before := len(g.ops)
-	switch g.r.Intn(4) {
+	switch g.r.Intn(5) {
+	case 4: // AlwaysRebuild build (possibly after an edit), then ordinary builds
+		if n, ok := g.pickRegular(); ok && g.r.Bool() {
+			st := g.src[n]
+			st.mtime = g.nextMtime()
+			g.setSrc(n, st)
+		}
+		var names []string
+		for _, r := range g.rules {
+			names = append(names, r.name)
+		}
+		g.emit("build always=1 %s", strings.Join(names, " "))
+		g.buildFull()
+		g.rep.Count("gen:scenario-always-then-ordinary")
 	case 0: // an execution fails on an obstructed output, the output comes back byte for byte
 		if outs := g.fsOuts(g.rules); len(outs) > 0 {
 			o := hx.Pick(g.r, outs)
